@@ -306,6 +306,9 @@ def gen_scenario(r: random.Random, task: Optional[str] = None, n_frames: Optiona
         if "false_positive" not in pf_labels and r.random() < 0.3:
             pf_labels.append("false_positive")
         pf = {"target_labels": pf_labels, "matching_threshold_list": [round(r.choice([0.05, 0.5, 1.0, 2.0, 5.0, 50.0]) * r.uniform(0.8, 1.2), 3) if r.random() > 0.06 else 0.0 for _ in pf_labels]}
+        if r.random() < 0.3:
+            # the pass/fail configuration's own optional per-label confidence list
+            pf["confidence_threshold_list"] = [round(r.uniform(0.2, 0.9), 2) for _ in pf_labels]
         passfail.append(pf)
     if n_frames > 1 and r.random() < 0.5:
         # one critical filter / pass-fail configuration for the whole sequence (what a driver script does): the very same
